@@ -144,10 +144,10 @@ func checkC01(c *Ctx, r *Report) {
 			msgOK := derivesFrom(args[1], isParam(hrp, "remoteStatic")) && prefix != "" &&
 				derivesFrom(args[1], func(x ssa.Value) bool { s, ok := constString(x); return ok && s == prefix })
 			r1.Check(msgOK, hrpK+": Verify message = payloadSigPrefix || remoteStatic", instrPos(v.(ssa.Instruction)), 1, "", "the verified message is not bound to the remote static Noise key", "")
-			r1.Check(derivesFrom(args[2], isCallResult(0, "(*"+noiseP+"/pb.NoiseHandshakePayload).GetIdentitySig")), hrpK+": Verify signature = payload.IdentitySig", instrPos(v.(ssa.Instruction)), 1, "",
+			r1.Check(derivesFrom(args[2], isFieldOrGetter(noiseP+"/pb.NoiseHandshakePayload.IdentitySig")), hrpK+": Verify signature = payload.IdentitySig", instrPos(v.(ssa.Instruction)), 1, "",
 				"the signature verified is not the payload's identity signature", "")
 			uk := isResultOfCall(key, 0, "core/crypto.UnmarshalPublicKey")
-			r1.Check(uk != nil && derivesFrom(uk.Common().Args[0], isCallResult(0, "(*"+noiseP+"/pb.NoiseHandshakePayload).GetIdentityKey")), hrpK+": key = UnmarshalPublicKey(payload.IdentityKey)", instrPos(v.(ssa.Instruction)), 1, "",
+			r1.Check(uk != nil && derivesFrom(uk.Common().Args[0], isFieldOrGetter(noiseP+"/pb.NoiseHandshakePayload.IdentityKey")), hrpK+": key = UnmarshalPublicKey(payload.IdentityKey)", instrPos(v.(ssa.Instruction)), 1, "",
 				"the verifying key is not the payload's identity key", "")
 		}
 		for _, ret := range successReturns(hrp) {
@@ -155,7 +155,7 @@ func checkC01(c *Ctx, r *Report) {
 				name string
 				set  []ssa.Instruction
 			}{{"remoteID", idStores}, {"remoteKey", keyStores}} {
-				q := &Cut{Fn: hrp, Target: isInstr(ret), Sep: inSet(part.set)}
+				q := &Cut{Fn: hrp, Target: isInstr(ret), EdgeCut: failCut(ret), Sep: inSet(part.set)}
 				w, n := q.Run(c)
 				r1.Check(w == "" && len(part.set) > 0, hrpK+": success return passes store "+part.name, instrPos(ret), n+1, "", "a successful payload check can return without recording the authenticated "+part.name, w)
 			}
@@ -210,7 +210,7 @@ func checkC01(c *Ctx, r *Report) {
 			r3.Fail("runHandshake: success returns", rh.Pos(), "no success return recognised", "")
 		}
 		for _, ret := range rets {
-			q := &Cut{Fn: rh, Target: isInstr(ret), Sep: inSet(hcalls)}
+			q := &Cut{Fn: rh, Target: isInstr(ret), EdgeCut: failCut(ret), Sep: inSet(hcalls)}
 			w, n := q.Run(c)
 			r3.Check(w == "" && okArgs, "runHandshake: success return passes handleRemoteHandshakePayload", instrPos(ret), n+1, "", "a role can finish the handshake without checking the remote payload", w)
 			q2 := &Cut{Fn: rh, Target: isInstr(ret), EdgeCut: edgeNil(isCallResult(1, hrpK), true)}
@@ -340,7 +340,7 @@ func checkC01(c *Ctx, r *Report) {
 				r5.Check(isKey(strip(s.(*ssa.Send).X)), cfpK+"$cb: value sent is PubKeyFromCertChain's key", instrPos(s), 1, "", "a different key is handed to the handshake", "")
 			}
 			for _, ret := range successReturns(cb) {
-				q := &Cut{Fn: cb, Target: isInstr(ret), Sep: inSet(sends)}
+				q := &Cut{Fn: cb, Target: isInstr(ret), EdgeCut: failCut(ret), Sep: inSet(sends)}
 				w, n := q.Run(c)
 				r5.Check(w == "" && len(sends) > 0, cfpK+"$cb: nil return passes the keyCh send", instrPos(ret), n+1, "", "certificate accepted without handing over the verified key", w)
 			}
